@@ -245,6 +245,12 @@ class OpsMixin(object):
             raise RaiseSignal(ExcV(ExtV("builtins.AttributeError"), [Const(attr)]), node)
         if isinstance(base, Opaque):
             return Opaque(("attr", base.path, attr))
+        if isinstance(base, ExcV):
+            if attr == "args":
+                return ListV(list(base.args) or [Const("")], "tuple")
+            if attr == "message":
+                return base.args[0] if base.args else Const("")
+            self.err(node, "exception attribute %s" % attr)
         if isinstance(base, Unknown):
             return Unknown(base.tag + "." + attr)
         if isinstance(base, PyObjV):
